@@ -106,7 +106,7 @@ class InterpNDSemi(object):
         # Cache spline coefficients.
         interp = INTERP_METHODS[method]
 
-        table = interp(self.grid, values, interp, **kwargs)
+        table = interp(self.grid, values, interp, extrapolate=extrapolate, **kwargs)
         table.check_config()
 
         self.table = table
